@@ -11,7 +11,10 @@ PROP = {'technique': 'property-based testing (rapid): generated rule files and l
                'compile.go comments / TestCompile) and rapid.',
  'rule': 'rapid-generated rule files (outbound name case-varied x {exact, suffix:, wildcard with 1-2 * anywhere, IPv4, IPv6, v4/v6 CIDR '
          'any prefix length, all, *} mixed case / trailing dot x protoPort forms x optional hijack IP, whitespace/comments) over a small '
-         'universe of names and addresses so rules overlap; queries aimed at a rule (match / near miss at label, bit and port boundaries) '
+         'universe of names and addresses so rules overlap, mixed with motifs a rule-merging optimiser would exploit: runs of 2-6 '
+         'adjacent same-action IP/CIDR rules with nested / overlapping / duplicated / single-address members (v4 and v6, /0 .. /32'
+         '|/128, sorted or unsorted) followed by a wider network under another action, runs of adjacent same-action domain rules o'
+         'f one family, a port-limited all early in the list, a catch-all last (up to 18 lines); queries aimed at a rule (match / near miss at label, bit and port boundaries; for networks also a random inside address, first/last address, the address before/after) '
          'or from the universe, as fresh / one-component mutation / repeat (possibly respelled). Non-trivial (Match): a repeat after an '
          'eviction-forcing number of distinct lookups AND a query matched by >=2 rules with different results. Non-trivial (Engine): a '
          'cache hit AND such a query; (EngineEvict): a re-asked probe after >=1024 other distinct requests, >1024 distinct requests in '
